@@ -9,7 +9,7 @@ from harness.props.C05 import C05
 
 class C16(C05):
     id = "C16"
-    props_modules = ["E3fpVerif.Props.C16"]
+    props_modules = ["E3fpVerif.Props.C16", "E3fpVerif.Props.C16Hist"]
     faults = True
     n_quick, n_thorough = 160, 4000
     rule = ("the histories of C05 with injected faults: additions carrying one fingerprint of the wrong length, wrong level "
